@@ -143,7 +143,7 @@ class World:
             for t in pend:
                 t.cancel()
             if pend:
-                self.loop.run_until_complete(asyncio.gather(*pend, return_exceptions=True))
+                self.loop.run_until_complete(asyncio.wait(pend, timeout=5.0))
         except Exception:   # noqa
             pass
         asyncio.set_event_loop(None)
@@ -577,10 +577,10 @@ async def finish_run(w, r):
     # quiet the rest of the network, then two hours in which only the unloaded overlay's leftovers can act
     for name, other in w.nodes.items():
         if other is not ov:
-            try:
-                await other.unload()
-            except Exception:   # noqa
-                pass
+            t = asyncio.ensure_future(other.unload())
+            await asyncio.wait([t], timeout=60.0)      # virtual seconds; a broken unload() must not hang the harness
+            if not t.done():
+                t.cancel()
     w.net.queue.clear()
     await w.loop.advance(7200)
     w.drain_handler_log()
@@ -791,11 +791,6 @@ def scenario_table():
     return T
 
 
-def resolve_role(w, role):
-    """@relay / @exit: the node that ends up relaying / exiting in this (seeded) run - found by a dry run"""
-    return role
-
-
 def run_once(job):
     """job: dict(scenario, role, unload_at | unload_time, seed, eager) -> dict(result)"""
     from .prng import stream
@@ -813,17 +808,13 @@ def run_once(job):
                 role = job.get("resolved") or "origin"
             if role not in w.nodes:
                 role = names[0]
-            if job.get("dry"):
-                w.target = None
-                w.unload_requested = True     # nothing is unloaded; script runs in full
-                w.unload_requested = False
             tgt = w.nodes[role]
             w.watch(tgt)
             w.unload_at = job.get("unload_at")
             w.unload_time = job.get("unload_time")
             w.eager = bool(job.get("eager"))
             await asyncio.sleep(0)
-            if job.get("dry"):
+            if job.get("dry"):         # dry run: the whole script, unload afterwards; tells the step count and the roles
                 w.unload_at = None
                 w.unload_time = None
             await script(w, names)
